@@ -20,6 +20,9 @@ def tok(role, name):
     if name == 'B': return d(pf(2, b'\x00\x01\x02'))
     if name == 'PI0': return d(pf(9, b''))
     if name == 'PI': return d(pf(9, b'ab'))
+    if name == 'PI3': return d(pf(9, b'abc'))
+    if name == 'PI124': return d(pf(9, b'q' * 124))
+    if name == 'PI125': return d(pf(9, b'r' * 125))
     if name == 'PI2': return d(pf(9, b'ab') + pf(9, b'cd'))
     if name == 'PIT': return d(pf(9, b'pq') + pf(1, b'yo'))
     if name == 'PO': return d(pf(10, b'z'))
@@ -36,14 +39,17 @@ def tok(role, name):
     if name == 'RST': return ['e:reset']
     if name == 'WB': return ['e:wb']
     if name == 'INTR': return ['e:intr']
+    if name == 'UEOF': return ['e:ueof']
+    if name == 'ABRT': return ['e:aborted']
+    if name == 'TMO': return ['e:timedout']
     raise KeyError(name)
 
-PEER_TOKENS = ['T', 'B', 'PI0', 'PI', 'PI2', 'PIT', 'PO', 'C1000', 'CE', 'C1005', 'C3000', 'PIC', 'CG', 'F1', 'F2', 'RSV',
+PEER_TOKENS = ['T', 'B', 'PI0', 'PI', 'PI3', 'PI124', 'PI125', 'UEOF', 'ABRT', 'TMO', 'PI2', 'PIT', 'PO', 'C1000', 'CE', 'C1005', 'C3000', 'PIC', 'CG', 'F1', 'F2', 'RSV',
                'EOF', 'RST', 'WB', 'INTR']
 PEER_CORE = ['T', 'PI', 'C1000', 'CE', 'C1005', 'CG', 'EOF', 'RST', 'WB']
 
 USER_OPS = ['r', 'wt:6869', 'wb:00112233445566778899aabbccddeeff', 'wpi:70', 'wpo:71', 'f', 'c:-', 'c:1000:6279', 'cr', 'cw',
-            'wc:1001:-']
+            'wc:1001:-', 'wf:1000:1:-:7261', 'wf:1000:9:-:72', 'sb:5:4000', 'sb:0:inf']
 USER_CORE = ['r', 'wt:6869', 'wpi:70', 'wpo:71', 'f', 'c:-', 'cr', 'cw']
 
 def frame_size(role, payload_len):
@@ -65,8 +71,10 @@ WRITE_PATTERNS = {
     'zero': ['a:0'], 'wbzero': ['e:wb', 'a:0'],
     'intr': ['e:intr'], 'reset': ['e:reset'], 'other': ['e:other'],
     'wb_then_other': ['e:wb', 'e:other'],
+    'ueof': ['e:ueof'], 'aborted': ['a:2', 'e:aborted'], 'wzero': ['e:wzero'],
 }
-FLUSH_PATTERNS = {'ok': [], 'fwb1': ['e:wb'], 'fwb2': ['e:wb', 'e:wb'], 'fother': ['e:other'], 'fintr': ['e:intr']}
+FLUSH_PATTERNS = {'ok': [], 'fwb1': ['e:wb'], 'fwb2': ['e:wb', 'e:wb'], 'fother': ['e:other'], 'fintr': ['e:intr'], 'ftimedout': ['e:timedout'],
+                  'fintr_then_ok': ['e:intr', 'ok'], 'freset': ['e:reset']}
 
 def history(cid, role, ops, peer, wpat='accept', fpat='ok', wbs=0, max_=None, tail=0, seed=7, rbs=4096,
             mms=None, mfs=None, au=False, pre=b'', tail_op='f'):
@@ -91,19 +99,24 @@ def random_history(rng, cid, long=False, core=False, tight_prob=0.4):
     peer = [rng.choice(ptoks) for _ in range(nreads)]
     # transport endings are final in reality: cut the peer list after the first EOF/RST (later reads see WouldBlock)
     for i, t in enumerate(peer):
-        if t in ('EOF', 'RST'):
+        if t in ('EOF', 'RST', 'UEOF', 'ABRT', 'TMO'):
             peer = peer[:i + 1]
             break
     wpat = rng.choice(list(WRITE_PATTERNS)) if rng.random() < 0.7 else 'accept'
     fpat = rng.choice(list(FLUSH_PATTERNS)) if rng.random() < 0.3 else 'ok'
     wbs = rng.choice([0, 0, 0, 1, 10, 600])
     largest = max([op_frame_size(role, o) for o in ops] + [frame_size(role, 20)])  # 20 = the 1002 'Protocol violation' reply
+    if any(t in ('PI124', 'PI125') for t in peer):
+        largest = max(largest, frame_size(role, 125))      # the automatic pong is a frame of the history too
     max_ = None
     if rng.random() < tight_prob:
         max_ = max(largest + rng.choice([0, 0, 1, 5, 20]), wbs + 1)
     tail = rng.choice([0, 3, 6])
-    return history(cid, role, ops, peer, wpat, fpat, wbs, max_, tail, seed=rng.randint(0, 2**32 - 1),
+    line = history(cid, role, ops, peer, wpat, fpat, wbs, max_, tail, seed=rng.randint(0, 2**32 - 1),
                    rbs=rng.choice([0, 1, 2, 5, 14, 64, 4096]), tail_op=rng.choice(['f', 'f', 'r', 'c:-']))
+    if rng.random() < 0.25:
+        f = line.split(' '); f[8] += '@sc'; line = ' '.join(f)     # configuration installed with set_config at time zero
+    return line
 
 def exhaustive_histories(prefix, length, roles='sc', uops=None, ptoks=None, wpats=('accept', 'wb2'), tight=(False, True), tail=4, tail_ops=('f', 'r')):
     """all op sequences of exactly `length` over uops; each read op gets every peer token (cross product)"""
